@@ -360,6 +360,10 @@ class _Norm(ast.NodeTransformer):
         self.generic_visit(n)
         if isinstance(n.func, ast.Name) and n.func.id in ('elf_assert', 'dwarf_assert') and len(n.args) > 1:
             n.args[1] = self._msg(n.args[1])
+        # N35: d.get(k, None)  ->  d.get(k)
+        if isinstance(n.func, ast.Attribute) and n.func.attr == 'get' and len(n.args) == 2 and not n.keywords and \
+                isinstance(n.args[1], ast.Constant) and n.args[1].value is None:
+            n.args = n.args[:1]
         # N23: f(**{'k': v, ..}) with identifier keys  ->  f(k=v, ..)
         kws = []
         for k in n.keywords:
@@ -475,6 +479,20 @@ class _Norm(ast.NodeTransformer):
         if len(n.targets) == 1 and isinstance(n.targets[0], ast.Name) and isinstance(n.value, ast.BinOp) and \
                 isinstance(n.value.left, ast.Name) and n.value.left.id == n.targets[0].id:
             return ast.copy_location(ast.AugAssign(target=ast.Name(id=n.targets[0].id, ctx=ast.Store()), op=n.value.op, value=n.value.right), n)
+        # x = x + a + b  (a left-nested sum that starts with x)  ->  x += a + b
+        if len(n.targets) == 1 and isinstance(n.targets[0], ast.Name) and isinstance(n.value, ast.BinOp) and isinstance(n.value.op, ast.Add):
+            terms = []
+            e = n.value
+            while isinstance(e, ast.BinOp) and isinstance(e.op, ast.Add):
+                terms.append(e.right)
+                e = e.left
+            if isinstance(e, ast.Name) and e.id == n.targets[0].id and len(terms) >= 2 and \
+                    not any(isinstance(x, ast.Name) and x.id == e.id for t in terms for x in ast.walk(t)):
+                terms.reverse()
+                rest = terms[0]
+                for t in terms[1:]:
+                    rest = ast.BinOp(left=rest, op=ast.Add(), right=t)
+                return ast.copy_location(ast.AugAssign(target=ast.Name(id=e.id, ctx=ast.Store()), op=ast.Add(), value=rest), n)
         return n
 
     def visit_If(self, n):
